@@ -298,7 +298,8 @@ entry of a name wins.  `open` follows symlink AND hard link entries inside the t
 `WriteHeader` keeps the header it was created from and reads `te.tfs.Open(te.header.Name)` — by NAME.
 Left out (cannot make more bytes unverified; the generator avoids them): a node whose own entry has size 0
 never defers to the tar; a served body whose length differs from the header size fails the layer writer;
-entry names are taken literally (no `./`, no trailing-slash clash between a directory and a file). -/
+entry names are taken literally (no `./` prefix; a directory entry `n/` does not clash with a file `n` here — in Go
+it aborts — only one spelled exactly `n` does). -/
 
 def tarLookup (es : List Entry) (n : Text) : Option Entry := es.reverse.find? (fun e => e.name = n)
 
@@ -341,7 +342,11 @@ def place (nodes : List Node) (nd : Node) : List Node :=
 /-- `memFS.WriteHeader` for one entry; `none` = error (the build aborts) -/
 def writeEntry (nodes : List Node) (e : Entry) : Option (List Node) :=
   match e.kind, e.recorded with
-  | .dir, _ => some nodes
+  | .dir, _ =>
+    -- `MkdirAll` over a name that is a file fails ("path is not a directory"); over a symlink (to a directory) the entry is skipped
+    match findNode e.name nodes with
+    | some ex => if ex.isLink then some nodes else none
+    | none => some nodes
   | .reg, .sum d =>
     some (place nodes { name := e.name, teName := e.name, sum := d, own := e.body, isLink := false, link := [] })
   | .symlink, .sum d =>
@@ -362,10 +367,12 @@ def installNodes : List Node → List Entry → Option (List Node)
     | none => none
     | some ns' => installNodes ns' es
 
-def namesNodup (es : List Entry) : Bool := decide (es.map (·.name)).Nodup
+/-- the names of the entries that are not directories (files, links, anything else) are distinct -/
+def namesNodup (es : List Entry) : Bool := decide ((es.filter (fun e => e.kind ≠ .dir)).map (·.name)).Nodup
 
-/-- `lazilyInstallAPKFiles`.  `rejectDup = true` is the repaired installer (round 2: a data section in which a
-name occurs twice is refused before anything is written), `false` the pinned one (finding F05e). -/
+/-- `lazilyInstallAPKFiles`.  `rejectDup = true` is the repaired installer (round 2: a data section in which the
+name of a non-directory entry occurs twice is refused; directories may be listed more than once, and one that takes
+the name of a file fails in `WriteHeader`), `false` the pinned one (finding F05e). -/
 def install (rejectDup : Bool) (es : List Entry) : Option (List Node) :=
   if rejectDup && !namesNodup es then none else installNodes [] (installable es)
 
@@ -638,7 +645,7 @@ def dupNames (L : Lib) (p : PkgReq) (cache : Option Cache) : Bool :=
   | some (_, data) =>
     match L.untarData data with
     | none => false
-    | some es => !namesNodup es
+    | some es => !decide (es.map (·.name)).Nodup
 
 end Spec
 
